@@ -17,7 +17,10 @@ ASSUME = ['reference notion of legal/stable configuration (mc/refmodel.py) is DE
 def run(tier, seed):
     # plus: larger charts in which a deep history state lies below an orthogonal state (its memory must not
     # pick up states of sibling regions)
-    extra = [([(7, 8, 1)], {'require': 'hd-under-orth', 'schemes': ('asc',), 'final': False})]
+    extra = [([(7, 8, 1)], {'require': 'hd-under-orth', 'schemes': ('asc',), 'final': False}),
+             # plus: the same charts reached through an editing history (placeholders queried, removed, names
+             # re-used under other parents) - a statechart is well-formed however it was built
+             ([(2, 5, 1)], {'schemes': ('asc',), 'decls': ('rebuilt',)})]
     return schemes.run('C02', tier, seed, PLAN[tier], ['legal'], {'legal', 'stable', 'final'},
                        RULE, ASSUME, extra_plans=extra)
 
